@@ -4,6 +4,7 @@ from __future__ import annotations
 import warnings
 from fractions import Fraction
 
+import numpy as np
 import shapely
 
 from harness import util
@@ -77,6 +78,7 @@ def examine(ctx, recipe: dict, items: list) -> None:
         used = {n for f in recipe['faces'] for n in f}
         orphan = len(used) != len(recipe['nodes'])
     with_bounds = not any_invalid and not orphan and any(k is not None for k in kept)
+    snapshot = {str(n): np.array(v.values, copy=True) for n, v in built.ds.variables.items()}
     try:
         c = G.bind(built)
         impl = S.impl_polys_out(c, with_bounds=with_bounds)
@@ -111,6 +113,22 @@ def examine(ctx, recipe: dict, items: list) -> None:
         ctx.count('has-invalid-cell')
     if any(q is None for q in raw):
         ctx.count('has-hole')
+    # ---- reading the geometry leaves the dataset as it was (a second look, or a slice sharing the arrays, must see
+    # the same coordinates)
+    if c is not None:
+        try:
+            _ = c.bounds, c.geometry, c.polygons, c.face_centres
+        except Exception:
+            pass
+        for n, before in snapshot.items():
+            after = np.asarray(built.ds.variables[n].values)
+            same = after.shape == before.shape and (
+                np.array_equal(after, before, equal_nan=True) if before.dtype.kind == 'f' else np.array_equal(after, before))
+            if not same:
+                ctx.oracle_fail('dataset-modified-by-geometry', {**desc, 'variable': n},
+                                f'variable {n} of the dataset changed while its geometry was read: '
+                                f'{int(np.sum(np.isnan(after)) - np.sum(np.isnan(before))) if before.dtype.kind == "f" else "?"} more missing values')
+                break
     # ---- direct oracle (independent of the Lean model) -------------------
     if c is None:
         sig = 'polygons-raise'
